@@ -79,7 +79,14 @@ def _(ir: IntegralIR) -> KernelTensorSizes:
     )
     coords = width * ir.expression.number_coordinate_dofs * 3
     local_index = 2  # TODO: this is just an upper bound, harmful?
-    permutation = 2 if ir.expression.needs_facet_permutations else 0
+    # Interior facet kernels index the tables of one-sided terms with
+    # quadrature_permutation[0] even when needs_facet_permutations is false
+    # (ufcx.h: for interior facets the array always has size 2)
+    permutation = (
+        2
+        if ir.expression.needs_facet_permutations or ir.expression.integral_type == "interior_facet"
+        else 0
+    )
 
     return KernelTensorSizes(A, w, c, coords, local_index, permutation)
 
